@@ -17,7 +17,7 @@ def joinWith (sep : String) (xs : List String) : String := sep.intercalate xs
 
 def idsStr (xs : List Nat) : String := joinWith "," (xs.map toString)
 
-def nAddrsConst : Nat := 12
+def nAddrsConst : Nat := 14
 def nKeys : Nat := 4
 
 def dump (st : SState) : String := Id.run do
